@@ -9,4 +9,5 @@ func genAll(repo string) {
 	genFileLog(repo)
 	genMapLog(repo)
 	genGate(repo)
+	genBlock(repo)
 }
